@@ -147,7 +147,7 @@ func init() {
 				"net.IP / masks": "lengths nil, 0, 1, 3, 4, 5, 15, 16, 17 with symbolic bytes; masks nil, 0, 3, 4, 16, 17; fam in {IPv4, IPv6} (documented precondition); net.Addr in {nil, TCP, UDP, IP, Unix}",
 				"netip values":   "zero Addr, IPv4, IPv6, IPv4-mapped, zoned (all address bits symbolic); prefix lengths 0..255; runes: all 32-bit values",
 				"hostsfile":      "Record.UnmarshalText on every ASCII line of length 0..4|6; MarshalText on symbolic addresses and names; storage accessors",
-				"urlutil":        "Parse / UnmarshalText / UnmarshalJSON(string token, null, empty) on every byte string of length 0..3|4; validators and redaction on symbolic url.URL fields",
+				"urlutil":        "Parse / UnmarshalText / UnmarshalJSON(string token, the one-byte token '\"', null, empty) on every byte string of length 0..3|4; validators and redaction on symbolic url.URL fields",
 				"stringutil":     "ContainsFold(|s|<=4|5, |sub|<=2), SplitTrimmed(|s|<=4|5, |sep|<=2): 7-bit bytes",
 			}
 		},
